@@ -2,12 +2,13 @@
 from propslib import comp_scope
 
 PROP = dict(
-    extract=["editor", "process_state"],
-    lean_targets=["Chewing.Props.C17"],
+    extract=["editor", "process_state", "sysloader"],
+    lean_targets=["Chewing.Props.C17", "Chewing.Props.C12NewCtx"],
     runs=[dict(bin="editor", args=["--queries"], tag="editor"),
           dict(bin="editor", args=["--c17-pairs"], tag="pairs"),
-          dict(bin="capi_pure", tag="capi", timeout=900, timeout_thorough=3000)],
-    scope=comp_scope("ed", "edq"),
+          dict(bin="capi_pure", tag="capi", timeout=900, timeout_thorough=3000),
+          dict(bin="newctx", tag="newctx", timeout=900, timeout_thorough=3000)],
+    scope=comp_scope("ed", "edq", "sysl"),
     level="proof",
     exhaustive=False,
     rule="one evaluation = one transcript record recomputed by the model from the implementation's own complete pre-state: "
@@ -33,7 +34,11 @@ PROP = dict(
                   "thread_local! / lazy_static! item of capi/src and src, classifies immutable tables vs. stateful items and fails "
                   "closed on a stateful item outside the reviewed list (LOGGER, OWNED, cfg-guarded hook CALLBACK); state kept "
                   "outside Rust statics (files, environment variables read at creation when NULL paths are passed) is a creation "
-                  "argument of the model, not shared state"],
+                  "argument of the model, not shared state",
+                  "creation model (Model/SysLoader.lean): the OS's name resolution is an arbitrary function path -> node; the locality "
+                  "theorems are about path STRINGS (two different strings naming the same directory through a symbolic link or `..` are "
+                  "different paths to the model); the user-side loader below the path-level decisions is a parameter with the stated "
+                  "locality property (`UserLocal`, proved for the standard loader `userFileStd` over Model/Loader.lean)"],
     assumptions=["a query is: every &self getter of Editor (Rust API); at the C level every plain getter, and the enumerate-style calls "
                  "(cand/interval/kbtype/userphrase Enumerate, hasNext, String/Get), which are stateful by design and write only their own "
                  "iterator slot: an observer reads a slot only after its own Enumerate",
@@ -79,7 +84,14 @@ MANIFEST = dict(
          "proof applyR_metaEq through every arm of the state machine; metaBlind_needed: false without the hypothesis). Tie: per-step correspondence of model and real editor for every operation and "
          "for the 20 getters (edq records), plus the three paired-execution experiments on the real Rust API and on the real C API "
          "(oracle, child processes). Two genuine defects repaired by fix: commits (F25: saved cursors survive a reset; chewing_Reset kept the "
-         "iterator slots); F33 (process-wide logger slot) is a known finding.",
+         "iterator slots); F33 (process-wide logger slot) is a known finding. CREATION (Chewing/Props/C12NewCtx.lean over Model/SysLoader.lean, the "
+         "model of chewing_new2 / src/path.rs / SystemDictionaryLoader over an arbitrary file system): `sysHalf_local`, `newContext_local`, "
+         "`newContext_local_env` - the created context (or NULL) depends on the file system only at the paths built from ITS syspath (five probes "
+         "per search-path segment and the entries of each segment's dictionary.d) and ITS userpath (the file, uhash.dat and chewing.sqlite3 "
+         "beside it; for NULL arguments the paths the environment yields and the probe of $HOME/.chewing); `write_outside_invisible`, "
+         "`disjoint_creations_independent`; `process_creation_local` / `process_history_local` link it to the process model: the CreateArgs of "
+         "`creation_args_local` are COMPUTED by the creation model (`createArgs`) and a process history is the same over file systems that agree "
+         "on each context's own reach. Tie: `sysl` records of run newctx + its oracle (files written outside the search path between two loads).",
     note="Theorem: everything stated about the Lean model (the clock / flush-level unobservability under the explicit environment "
          "hypothesis MetaBlindEnv). Correspondence: model = real editor per step and per getter (hook H1). "
          "Oracle only (no model): the C layer's purity / Reset / independence, threads. Trusted: Lean kernel (propext, "
